@@ -48,3 +48,35 @@ func VerifDepth() {
 	vAssert(d2 <= d1, "recursion-depth-not-bounded-by-nesting-limit")
 	vReach("depth")
 }
+
+var vnDepthUnits = []string{"async(", "a=>", "a?", "a?b:", "!", "-", "typeof ", "new ", "a,", "a=", "a+", "a**", "`${", "{a:", "x={a:", "[", "(", "f(", "function(){", "x=function(){", "class{a(){", "if(a)", "while(a)", "for(;;)", "a:", "{", "x=>{", "do ", "try{", "if(a);else ", "with(a)", "a?.", "a.", "a[", "await ", "yield ", "...", "x=[", "let[", "let{a:", "var[a=", "(a=", "a=(", "a=async(", "a||", "a??", "new a(", "switch(a){case a:", "async()=>", "async function(){", "class extends "}
+
+// VerifDepthUnits: the same guard check for repeated syntactic units (nested calls, arrows,
+// conditionals, unary chains, object/array literals, statements, ...).
+func VerifDepthUnits() {
+	ui := vRange("unit", 0, len(vnDepthUnits)-1)
+	unit := vnDepthUnits[ui]
+	rep := func(k int) []byte {
+		var b []byte
+		for i := 0; i < k; i++ {
+			b = append(b, unit...)
+		}
+		return append(b, 'a')
+	}
+	if !vSymbolic() {
+		_, err := Parse(parse.NewInputBytes(rep(1500000)), Options{})
+		_ = err
+		return
+	}
+	L := vParam("L", 3)
+	NestedStmtLimit, NestedExprLimit = L, L
+	k1, k2 := L+3, vParam("K", 9)
+	vDepthReset()
+	_, _ = Parse(parse.NewInputBytes(rep(k1)), Options{})
+	d1 := vDepth()
+	vDepthReset()
+	_, _ = Parse(parse.NewInputBytes(rep(k2)), Options{})
+	d2 := vDepth()
+	vAssert(d2 <= d1, "recursion-depth-not-bounded-by-nesting-limit")
+	vReach("depth")
+}
